@@ -6,3 +6,4 @@ DOC = {'explanation': 'C17 structural clauses (see DESIGN.md section 5)', 'decid
 def rules(ctx):
     S.c17_rules(ctx)
     S.c05_r4_poison(ctx)
+    S.walker_rules(ctx)
